@@ -5,11 +5,20 @@
    amount of any of the eight whitespace characters between tokens produces no token.  Each statement
    holds for every chunking of the input (the *_chunked forms).  That redundant parentheses
    change nothing follows from T2 (proved): the tree of Spec/Syntax.v has no parenthesis node
-   (C20_paren_is_transparent) and two token lists with the same tree compile to the same program
-   (C20_same_tree_same_program). *)
+   (C20_paren_is_transparent, C20_paren_atom: parentheses around a single-token operand, with fuel) and two
+   token lists with the same tree compile to the same program (C20_same_tree_same_program).  The grammar never
+   looks at token positions (C20_tree_ignores_positions), so two sources whose token sequences agree in type and
+   text -- which is all that layout and comments can leave different, by the byte-level theorems above --
+   are accepted together and compile to the same code and constants (C20_layout_irrelevant).  Not proved: the
+   general bridge "inserting layout at a token boundary leaves the (type, text) sequence unchanged" for whole
+   sources (the byte-level theorems are one-step statements; composing them needs position-shift invariance and
+   append-locality of the lexer, see DESIGN.md), and parentheses around arbitrary sub-expressions; both are
+   exercised by the re-rendering oracle on every generated program. *)
 From BCL Require Import Model.Lexer Lib.Strconv Proofs.LexerProofs Proofs.LayoutProofs.
 Open Scope N_scope.
 From BCL Require Import Model.Compile Spec.Syntax Proofs.ParserInvProofs Proofs.T2Proofs Proofs.Language.
+
+From BCL Require Import Model.Api Proofs.LayoutTree.
 
 Theorem C20_comment_extent : forall body e rest c fuel,
   pending c = [] -> after c = body ++ e :: rest -> (e = 10 \/ e = 13) ->
@@ -117,6 +126,41 @@ Theorem C20_paren_is_transparent : forall f q lp r e rp r',
     end.
 Proof. first [exact Language.paren_is_transparent | apply Language.paren_is_transparent]. Qed.
 Print Assumptions C20_paren_is_transparent.
+
+Theorem C20_tree_ignores_positions : forall ts1 ts2,
+  map strip ts1 = map strip ts2 -> ast_program ts1 = ast_program ts2.
+Proof. first [exact LayoutTree.ast_ignores_positions | apply LayoutTree.ast_ignores_positions]. Qed.
+Print Assumptions C20_tree_ignores_positions.
+
+Theorem C20_same_tokens_same_program : forall ts1 ts2,
+  lex_shape ts1 -> map strip ts1 = map strip ts2 ->
+  hadError (parse_tokens ts1) = false -> oof (parse_tokens ts1) = false ->
+  ppanic (parse_tokens ts1) = false ->
+  hadError (parse_tokens ts2) = false /\
+  code (parse_tokens ts1) = code (parse_tokens ts2) /\
+  consts (parse_tokens ts1) = consts (parse_tokens ts2) /\
+  identRefs (parse_tokens ts1) = identRefs (parse_tokens ts2).
+Proof. first [exact LayoutTree.same_tokens_same_program | apply LayoutTree.same_tokens_same_program]. Qed.
+Print Assumptions C20_same_tokens_same_program.
+
+Theorem C20_layout_irrelevant : forall n1 n2 src1 src2,
+  map strip (fst (lex [src1])) = map strip (fst (lex [src2])) ->
+  pr_ok (parse_whole n1 src1) = true -> pr_oof (parse_whole n1 src1) = false ->
+  pr_panic (parse_whole n1 src1) = false ->
+  pr_ok (parse_whole n2 src2) = true /\ pr_oof (parse_whole n2 src2) = false /\
+  pr_panic (parse_whole n2 src2) = false /\
+  g_code (pr_prog (parse_whole n1 src1)) = g_code (pr_prog (parse_whole n2 src2)) /\
+  g_consts (pr_prog (parse_whole n1 src1)) = g_consts (pr_prog (parse_whole n2 src2)).
+Proof. first [exact LayoutTree.layout_irrelevant | apply LayoutTree.layout_irrelevant]. Qed.
+Print Assumptions C20_layout_irrelevant.
+
+Theorem C20_paren_atom : forall f g q lp x rp r a e r',
+  ttyp lp = tLPAREN -> ttyp rp = tRPAREN -> atom_of x = Some a -> as_operand q x r ->
+  (f + 2 <= g)%nat ->
+  pexpr f q (x :: r) = Some (e, r') ->
+  pexpr g q (lp :: x :: rp :: r) = Some (e, r').
+Proof. first [exact LayoutTree.paren_atom_closure | apply LayoutTree.paren_atom_closure]. Qed.
+Print Assumptions C20_paren_atom.
 
 Example C20_example :
   map ttyp (fst (lex [bs "print" ++ [194; 160; 11; 12] ++ bs "1 # not ; a ( token" ++ [13] ++ bs "print ""# ; ( "" "])) = [tPRINT; tINT; tPRINT; tSTR; tEOF].
